@@ -534,8 +534,8 @@ theorem plusAccept_sound (P : Problem Rat) (rhs pi : Array Rat) (tol scale : Rat
     (∀ c ∈ P.uniContact,
         (c.type = 2 → c.sign * vget pi c.Nk ≤ tol * scale) ∧
         (c.type ≠ 0 → c.Fk.isEmpty = false →
-          normSq (gather pi c.Fk) ≤ (1 + tol) * (1 + tol) * (c.mu * c.mu) * square (vget pi c.Nk + vget P.piExpand c.Nk)
-            + tol * scale * (tol * scale))) ∧
+          normSq (gather pi c.Fk) ≤
+            square ((1 + tol) * ratAbs c.mu * ratAbs (vget pi c.Nk + vget P.piExpand c.Nk) + tol * scale))) ∧
     (∀ b ∈ P.bounded, b.lb - tol * scale ≤ vget pi b.ix ∧ vget pi b.ix ≤ b.ub + tol * scale) ∧
     (chk = true → ∀ r ∈ P.participating,
         ratAbs (doRowSum P.participating r P.A P.D pi - vget rhs r) ≤ tol * scale) := by
